@@ -74,17 +74,18 @@ def _reference_step(k, hist, D, scale=DELTA_SCALE):
     return new
 
 
-def _emulate(md, k, hist0, Ds, start_step=0, restart_at=None):
+def _emulate(md, k, hist0, Ds, start_step=0, restart_at=None, excited=False):
     """run the code's own propagation the way one_step / run_from_checkpoint index the circular buffer; returns list of P(n+1)"""
     m = k + 1
     # fresh start of the code: every slot holds the same initial density (initialize() fills Pt with copies); for synthetic
     # histories the buffer is laid out as the code would have produced it after `start_step` steps: slot (m-1-cindx) was
     # written last. Slot holding age a (P(n-a)) at step s: newest written at index (m-1-((s-1)%m)).
-    Pt = torch.zeros(m, 1, 2, 2, dtype=torch.float64)
+    shape = (1, 1, 2, 2) if excited else (1, 2, 2)      # the transition-density history carries a state axis
+    Pt = torch.zeros(m, *shape, dtype=torch.float64)
     s = start_step
     newest = (m - 1 - ((s - 1) % m)) % m
     for age in range(m):
-        Pt[(newest + age) % m] = torch.tensor(hist0[age])
+        Pt[(newest + age) % m] = torch.tensor(hist0[age]).reshape(shape)
     P = Pt[newest].clone()
     out = []
     for i, D in enumerate(Ds):
@@ -94,11 +95,15 @@ def _emulate(md, k, hist0, Ds, start_step=0, restart_at=None):
             Pt = Pt.clone()
             P = Pt[(m - 1 - cindx)].clone()
         cindx = s % m
-        Dt = torch.tensor(D).reshape(1, 2, 2)
-        mol = SimpleNamespace(dm=Dt, dP2dt2=Dt - P)
-        P = md._propagate_P(P, Pt, cindx, mol)
+        Dt = torch.tensor(D).reshape(shape)
+        if excited:
+            # the same scheme drives the excited-state auxiliary variable (transition densities) of XL_BOMD on an excited surface
+            P = md._propagate_excited_state(P, Pt, cindx, SimpleNamespace(transition_density_matrices=Dt, dxi2dt2=None))
+        else:
+            mol = SimpleNamespace(dm=Dt, dP2dt2=Dt - P)
+            P = md._propagate_P(P, Pt, cindx, mol)
         Pt[(m - 1 - cindx)] = P
-        out.append(tonp(P)[0].copy())
+        out.append(tonp(P).reshape(2, 2).copy())
         s += 1
     return out
 
@@ -118,7 +123,7 @@ class Recurrence(SubCheck):
         for k in range(3, 10):
             for phase in range(k + 1):
                 for kind in ("stationary", "ramp", "alternating"):
-                    for cls in ("XL_BOMD", "KSA_XL_BOMD"):
+                    for cls in ("XL_BOMD", "KSA_XL_BOMD", "XL_BOMD:excited"):
                         yield {"k": k, "phase": phase, "kind": kind, "cls": cls, "restart": None}
                 yield {"k": k, "phase": phase, "kind": "ramp", "cls": "XL_BOMD", "restart": 1 + phase}
 
@@ -126,7 +131,7 @@ class Recurrence(SubCheck):
         @st.composite
         def gen(draw):
             k = draw(st.integers(3, 9))
-            return {"k": k, "phase": draw(st.integers(0, 3 * k)), "kind": "random", "cls": draw(st.sampled_from(["XL_BOMD", "KSA_XL_BOMD"])),
+            return {"k": k, "phase": draw(st.integers(0, 3 * k)), "kind": "random", "cls": draw(st.sampled_from(["XL_BOMD", "KSA_XL_BOMD", "XL_BOMD:excited"])),
                     "restart": draw(st.sampled_from([None, None] + list(range(1, k + 3)))), "seed": draw(st.integers(0, 10 ** 6)),
                     "gamma": draw(st.sampled_from([0.0, 0.1, 0.5, 1.0]))}
         return gen()
@@ -135,7 +140,7 @@ class Recurrence(SubCheck):
         k, m = case["k"], case["k"] + 1
         labels = ["k:%d" % k, "kind:" + case["kind"], "cls:" + case["cls"], "restart:%s" % (case["restart"] is not None)]
         try:
-            md = _xl(k, case["cls"])
+            md = _xl(k, case["cls"].split(":")[0])
         except Exception as e:
             return Outcome.fail(f"exception_constructor:{type(e).__name__}", f"{type(e).__name__}: {str(e)[:200]}", labels)
         rng = np.random.default_rng(case.get("seed", 0))
@@ -160,11 +165,11 @@ class Recurrence(SubCheck):
         for i in range(nsteps):
             D = Ds[i] if Ds is not None else (P0 + (1.0 - case["gamma"]) * (h[0] - P0) + 0.01 * _mat(rng.normal(size=4)))
             dlist.append(D)
-            new = _reference_step(k, h, D, scale=DELTA_SCALE if case["cls"] == "XL_BOMD" else 1.0)
+            new = _reference_step(k, h, D, scale=DELTA_SCALE if case["cls"].startswith("XL_BOMD") else 1.0)
             ref.append(new)
             h = [new] + h[:-1]
         try:
-            got = _emulate(md, k, hist0, dlist, start_step=case["phase"], restart_at=case["restart"])
+            got = _emulate(md, k, hist0, dlist, start_step=case["phase"], restart_at=case["restart"], excited=case["cls"].endswith(":excited"))
         except Exception as e:
             return Outcome.fail(f"exception:{type(e).__name__}", f"{type(e).__name__}: {str(e)[:200]}", labels, nontrivial)
         worst = 0.0
